@@ -11,14 +11,22 @@
         literal `<`…`>` printed as `{`…`}` (messageLiteralOpen/Close), the optional `,`/`;` after a
         message-literal field dropped (writeMessageLiteralElements), a missing `:` after a
         message-literal field name added (writeMessageFieldPrefix) — as roles assigned by a bracket
-        context automaton (`annotate`) and an explicit inductive relation `Rewrites`;
-  (iii) header canonicalisation as coded in writeFileHeader: statements are partitioned into
-        syntax/edition, package (last one wins), imports, options, rest; imports sorted by
-        (decoded file name, plain > public > weak, commented first) and an import elided when it
-        follows an import of the same file and carries no comment; options sorted built-ins before
-        custom, then by printed name.  After the fix (sort.SliceStable) the sort is THE stable sort
-        (`isort`); before the fix (sort.Slice) it was any sorted permutation (`SortedPermOf`);
-  (iv)  the executable checker `validFormat inp out`.
+        context automaton (`annotate`) and an explicit inductive relation `Rewrites`.  All other
+        tokens are printed with their raw text (writeRaw / identNode.Val): no literal is respelled;
+  (ii') protocompile's COMMENT ATTRIBUTION (lexer.setPrevAndAddComments): every comment belongs to
+        one significant token (or to EOF) as a leading or trailing comment: `decorate`.  The
+        rewrites of (ii) on decorated tokens: `normD` (the trailing comment of a dropped separator
+        moves to the token before it; a dropped token must not carry any other comment);
+  (iii) file-level statements (`stmts`), their five classes and the header canonicalisation as
+        coded in writeFileHeader: syntax/edition, package, imports, options, rest; imports sorted
+        by (decoded file name, plain > public > weak, commented first) and an import elided when
+        it follows an import of the same file and carries no comment; options sorted built-ins
+        before custom, then by printed name.  After the fix (sort.SliceStable) the sort is THE
+        stable sort (`isort`); before the fix (sort.Slice) it was any sorted permutation
+        (`SortedPermOf`).  `fmtModel` = (ii') ; (iii) on a whole decorated stream;
+  (iv)  the executable checker `validFormat inp out` — a relation between the two texts;
+  (v)   the normal form `isFormatted` (token level: nothing left to rewrite, header canonical;
+        layout level: white space between tokens is one space or newline(s) + indentation).
 -/
 namespace BufModel.Format
 
@@ -300,6 +308,9 @@ def normTok : Token × Role → List Token
 /-- the significant tokens after the body-level rewrites -/
 def norm (ts : List Token) : List Token := (annotate ts).flatMap normTok
 
+/-- the roles alone -/
+def roles (ts : List Token) : List Role := (annotate ts).map (·.2)
+
 /-- The documented body-level rewrites, as an explicit relation between role-annotated input
     tokens and output tokens. -/
 inductive Rewrites : List (Token × Role) → List Token → Prop
@@ -311,78 +322,121 @@ inductive Rewrites : List (Token × Role) → List Token → Prop
   | closeBrace (t) {l o} : t.is ">" → Rewrites l o → Rewrites ((t, .toCloseBrace) :: l) (sym "}" :: o)
   | colonAfter (t) {l o} : Rewrites l o → Rewrites ((t, .colonAfter) :: l) (t :: sym ":" :: o)
 
+/-! ## Significant tokens WITH their comments (protocompile lexer.setPrevAndAddComments)
 
-theorem norm_rewrites_aux (l : List (Token × Role))
-    (h : ∀ p ∈ l, (p.2 = .dropEmpty → p.1.is ";") ∧ (p.2 = .dropSep → (p.1.is "," ∨ p.1.is ";")) ∧
-      (p.2 = .toOpenBrace → p.1.is "<") ∧ (p.2 = .toCloseBrace → p.1.is ">")) :
-    Rewrites l (l.flatMap normTok) := by
-  induction l with
-  | nil => exact .nil
-  | cons p l ih =>
-    have hp := h p (List.mem_cons_self ..)
-    have ih' := ih (fun q hq => h q (List.mem_cons_of_mem _ hq))
-    obtain ⟨t, r⟩ := p
-    cases r with
-    | keep => exact .keep t ih'
-    | dropEmpty => exact .dropEmpty t (hp.1 rfl) ih'
-    | dropSep => exact .dropSep t (hp.2.1 rfl) ih'
-    | toOpenBrace => exact .openBrace t (hp.2.2.1 rfl) ih'
-    | toCloseBrace => exact .closeBrace t (hp.2.2.2 rfl) ih'
-    | colonAfter => exact .colonAfter t ih'
+  protocompile attributes every comment to exactly one significant token (or to the EOF token),
+  as a LEADING or as a TRAILING comment.  `decorate` reproduces that attribution; the decorated
+  stream is a loss-free re-presentation of (significant tokens, comments): theorems
+  `decorate_toks`, `decorate_comments`. -/
 
-/-! ## Comment attribution (protocompile lexer.setPrevAndAddComments) -/
+/-- comment content up to the layout changes the formatter documents (`// x` ↔ `/* x */`,
+    re-indentation of block comment lines): the words between the comment markers -/
+def splitWords : Str → Str → List Str
+  | [], cur => if cur.isEmpty then [] else [cur.reverse]
+  | c :: cs, cur => if isWs c then (if cur.isEmpty then splitWords cs [] else cur.reverse :: splitWords cs []) else splitWords cs (c :: cur)
 
-/-- significant token with "has a leading / trailing comment attributed to it" -/
-structure STok where
+abbrev CKey := List Str
+
+def commentKey (t : Token) : CKey :=
+  let body := if t.kind = .lineComment then t.text.drop 2 else ((t.text.drop 2).reverse.drop 2).reverse
+  splitWords body []
+
+/-- a significant token with the comments attributed to it -/
+structure DTok where
   tok : Token
-  lead : Bool := false
-  trail : Bool := false
+  lead : List CKey := []
+  trail : List CKey := []
   deriving DecidableEq, Repr
+
+/-- the pseudo token protocompile appends at the end of the file; it owns the comments after the
+    last real token.  (The lexer never produces a token with empty text: `lexer_total`.) -/
+def eofTok : Token := ⟨.sym, []⟩
 
 def newlines (s : Str) : Nat := (s.filter (· = '\n')).length
 
+/-- a comment waiting for the next significant token -/
 structure Pending where
+  key : CKey
   start : Nat
   stop : Nat
   line : Bool
 
-structure AttrState where
-  out : List STok := []          -- reversed
-  prev : Option STok := none
+structure DState where
+  prev : Option DTok := none    -- the last significant token; its trailing comment is not decided yet
   prevEnd : Nat := 0
   pend : List Pending := []
   line : Nat := 0
 
-/-- does the first pending comment become a trailing comment of the previous token? -/
-def donates (prev : Option STok) (prevEnd : Nat) (pend : List Pending) (nStart : Nat) : Bool :=
-  match prev, pend with
-  | some _, c :: cs => nStart > prevEnd && c.start = prevEnd && (c.line || !cs.isEmpty || c.stop < nStart)
+/-- does the first pending comment become THE trailing comment of the previous token?
+    (as coded: at most one comment is donated) -/
+def donates (hasPrev : Bool) (prevEnd : Nat) (pend : List Pending) (nStart : Nat) : Bool :=
+  match hasPrev, pend with
+  | true, c :: cs => nStart > prevEnd && c.start = prevEnd && (c.line || !cs.isEmpty || c.stop < nStart)
   | _, _ => false
 
-def flush (st : AttrState) (nStart : Nat) : List STok × Bool :=
-  let d := donates st.prev st.prevEnd st.pend nStart
-  let out := match st.prev with
-    | some p => { p with trail := p.trail || d } :: st.out
-    | none => st.out
-  (out, if d then st.pend.length > 1 else !st.pend.isEmpty)
+/-- finish the previous token (0 or 1 tokens) and return the leading comments of the next one -/
+def closePrev (st : DState) (nStart : Nat) : List DTok × List CKey :=
+  match st.prev with
+  | some p =>
+    if donates true st.prevEnd st.pend nStart then
+      ([{ p with trail := (st.pend.take 1).map (·.key) }], (st.pend.drop 1).map (·.key))
+    else ([{ p with trail := [] }], st.pend.map (·.key))
+  | none => ([], st.pend.map (·.key))
 
-def attrStep (st : AttrState) (t : Token) : AttrState :=
-  let nl := newlines t.text
-  match t.kind with
-  | .ws => { st with line := st.line + nl }
-  | .lineComment => { st with pend := st.pend ++ [⟨st.line, st.line + nl, true⟩], line := st.line + nl }
-  | .blockComment => { st with pend := st.pend ++ [⟨st.line, st.line + nl, false⟩], line := st.line + nl }
-  | _ =>
-    let r := flush st st.line
-    { out := r.1, prev := some { tok := t, lead := r.2 }, prevEnd := st.line + nl, pend := [], line := st.line + nl }
+def decoAux : DState → List Token → List DTok
+  | st, [] =>
+    let nStart := if st.line = st.prevEnd then st.line + 1 else st.line   -- EOF pretends to be on its own line
+    let r := closePrev st nStart
+    r.1 ++ [{ tok := eofTok, lead := r.2 }]
+  | st, t :: ts =>
+    let nl := newlines t.text
+    if t.kind = .ws then decoAux { st with line := st.line + nl } ts
+    else if t.isComment then
+      decoAux { st with pend := st.pend ++ [⟨commentKey t, st.line, st.line + nl, t.kind = .lineComment⟩], line := st.line + nl } ts
+    else
+      let r := closePrev st st.line
+      r.1 ++ decoAux { prev := some { tok := t, lead := r.2 }, prevEnd := st.line + nl, pend := [], line := st.line + nl } ts
 
-/-- significant tokens with their comment flags -/
-def attributeComments (ts : List Token) : List STok :=
-  let st := ts.foldl attrStep {}
-  let nStart := if st.line = st.prevEnd then st.line + 1 else st.line   -- EOF pretends to be on its own line
-  (flush st nStart).1.reverse
+/-- significant tokens (plus the EOF token) with their comments -/
+def decorate (ts : List Token) : List DTok := decoAux {} ts
 
-/-! ## (iii) Header canonicalisation -/
+def DTok.comments (d : DTok) : List CKey := d.lead ++ d.trail
+
+/-- all comments of a decorated stream, in source order -/
+def commentsOf (ds : List DTok) : List CKey := ds.flatMap DTok.comments
+
+def toks (ds : List DTok) : List Token := ds.map (·.tok)
+
+/-! ### body-level rewrites on decorated tokens -/
+
+/-- the trailing comment of a dropped message-literal separator moves to the token before it
+    (formatter: setTrailingComments on the field value) -/
+def absorb (x : DTok × Role) : List (DTok × Role) → List (DTok × Role)
+  | (s, .dropSep) :: rest => ({ x.1 with trail := x.1.trail ++ s.trail }, x.2) :: ({ s with trail := [] }, .dropSep) :: rest
+  | acc => x :: acc
+
+def moveSepTrail (l : List (DTok × Role)) : List (DTok × Role) := l.foldr absorb []
+
+def normTokD : DTok × Role → List DTok
+  | (d, .keep) => [d]
+  | (_, .dropEmpty) => []
+  | (_, .dropSep) => []
+  | (d, .toOpenBrace) => [{ d with tok := sym "{" }]
+  | (d, .toCloseBrace) => [{ d with tok := sym "}" }]
+  | (d, .colonAfter) => [d, { tok := sym ":" }]   -- the comments of the name stay in front of the new `:`
+
+/-- role-annotated decorated tokens, separator comments moved -/
+def annotateD (ds : List DTok) : List (DTok × Role) := moveSepTrail (ds.zip (roles (toks ds)))
+
+/-- a token that is dropped must not carry a comment (the formatter would lose it: recorded
+    findings `comment-on-empty-statement`, `leading-comment-on-message-literal-separator`) -/
+def dropsClean (l : List (DTok × Role)) : Bool :=
+  l.all fun p => !(p.2 = .dropEmpty || p.2 = .dropSep) || (p.1.lead.isEmpty && p.1.trail.isEmpty)
+
+/-- the decorated tokens after the body-level rewrites -/
+def normD (ds : List DTok) : List DTok := (annotateD ds).flatMap normTokD
+
+/-! ## (iii) File-level statements and header canonicalisation -/
 
 def hexVal (c : Char) : Option Nat :=
   if '0' ≤ c ∧ c ≤ '9' then some (c.toNat - 48)
@@ -434,8 +488,8 @@ def decodeLit (text : Str) : List Nat :=
   let body := (text.drop 1).dropLast
   decodeBody body.length body
 
-/-- file-level statement: its tokens after the body-level rewrites -/
-abbrev Stmt := List STok
+/-- a file-level statement (declaration): its decorated tokens -/
+abbrev Stmt := List DTok
 
 def stmtText (s : Stmt) : List Token := s.map (·.tok)
 
@@ -444,10 +498,11 @@ def firstIs (s : Stmt) (w : String) : Bool :=
   | t :: _ => t.tok.is w
   | [] => false
 
-/-- split the (normalised) significant tokens of a file into file-level statements: a statement
-    ends at `;` at brace depth 0, or at the `}` that returns to depth 0 unless it is an `option`
-    statement (whose message-literal value is followed by `;`). -/
-def splitStmts : List STok → Nat → Stmt → List Stmt
+/-- split the (normalised) tokens of a file into file-level statements: a statement ends at `;`
+    at brace depth 0, or at the `}` that returns to depth 0 unless it is an `option` statement
+    (whose message-literal value is followed by `;`).  `cur` = the current statement, reversed.
+    Nothing is lost or duplicated: theorem `splitStmts_flatten`. -/
+def splitStmts : List DTok → Nat → Stmt → List Stmt
   | [], _, cur => if cur.isEmpty then [] else [cur.reverse]
   | t :: ts, depth, cur =>
     let cur' := t :: cur
@@ -458,20 +513,33 @@ def splitStmts : List STok → Nat → Stmt → List Stmt
     else if t.tok.is ";" && depth = 0 then cur'.reverse :: splitStmts ts 0 []
     else splitStmts ts depth cur'
 
+def stmts (ds : List DTok) : List Stmt := splitStmts ds 0 []
+
+/-- the five classes of writeFileHeader -/
+inductive Cls
+  | syn | pkg | imp | opt | rest
+  deriving DecidableEq, Repr
+
+def cls (s : Stmt) : Cls :=
+  if firstIs s "syntax" || firstIs s "edition" then .syn
+  else if firstIs s "package" then .pkg
+  else if firstIs s "import" then .imp
+  else if firstIs s "option" then .opt
+  else .rest
+
+def ofCls (c : Cls) (ss : List Stmt) : List Stmt := ss.filter (cls · = c)
+
 structure Header where
   syn : List Stmt := []        -- syntax / edition
-  pkg : Option Stmt := none    -- the LAST package statement (writeFileHeader overwrites)
+  pkg : List Stmt := []        -- package statements (a second one does not parse)
   imports : List Stmt := []
   options : List Stmt := []
-  rest : List Stmt := []
+  rest : List Stmt := []       -- everything else, including the EOF token
 
+/-- partition by class, keeping the order inside each class -/
 def parseHeader (ss : List Stmt) : Header :=
-  ss.foldl (fun h s =>
-    if firstIs s "syntax" || firstIs s "edition" then { h with syn := h.syn ++ [s] }
-    else if firstIs s "package" then { h with pkg := some s }
-    else if firstIs s "import" then { h with imports := h.imports ++ [s] }
-    else if firstIs s "option" then { h with options := h.options ++ [s] }
-    else { h with rest := h.rest ++ [s] }) {}
+  { syn := ofCls .syn ss, pkg := ofCls .pkg ss, imports := ofCls .imp ss, options := ofCls .opt ss,
+    rest := ofCls .rest ss }
 
 /-- lexicographic `<` on keys -/
 def lexLt : List Nat → List Nat → Bool
@@ -493,7 +561,7 @@ def Sorted {α} (lt : α → α → Bool) (l : List α) : Prop := l.Pairwise (fu
 def SortedPermOf {α} (lt : α → α → Bool) (l out : List α) : Prop := out.Perm l ∧ Sorted lt out
 
 -- imports
-def strToks (s : Stmt) : List STok := s.filter (·.tok.kind = .str)
+def strToks (s : Stmt) : List DTok := s.filter (·.tok.kind = .str)
 
 def importName (s : Stmt) : List Nat := (strToks s).flatMap (fun t => decodeLit t.tok.text)
 
@@ -503,14 +571,16 @@ def importOrder (s : Stmt) : Nat :=
   | _ :: m :: _ => if m.tok.is "public" then 2 else if m.tok.is "weak" then 1 else 3
   | _ => 3
 
+def DTok.hasComment (t : DTok) : Bool := !t.lead.isEmpty || !t.trail.isEmpty
+
 /-- importHasComment: comments on the keyword, the modifier, the semicolon, before the first or
     after the last part of the name — NOT between the parts of a concatenated name. -/
 def importHasComment (s : Stmt) : Bool :=
   let strs := strToks s
   let others := s.filter (·.tok.kind ≠ .str)
-  others.any (fun t => t.lead || t.trail) ||
-    (match strs.head? with | some t => t.lead | none => false) ||
-    (match strs.getLast? with | some t => t.trail | none => false)
+  others.any DTok.hasComment ||
+    (match strs.head? with | some t => !t.lead.isEmpty | none => false) ||
+    (match strs.getLast? with | some t => !t.trail.isEmpty | none => false)
 
 /-- sort key: (name, public > plain > weak as coded: larger order first, commented first) -/
 def importKey (s : Stmt) : List Nat :=
@@ -554,119 +624,96 @@ def canon (h : Header) : Header :=
   { h with imports := canonImports h.imports, options := canonOptions h.options }
 
 def Header.render (h : Header) : List Stmt :=
-  h.syn ++ h.pkg.toList ++ h.imports ++ h.options ++ h.rest
+  h.syn ++ h.pkg ++ h.imports ++ h.options ++ h.rest
+
+/-- The MODELLED token-level formatter: body rewrites, split into statements, hoist and sort the
+    header, concatenate.  (The real printer additionally chooses the layout; it is not modelled.) -/
+def fmtModel (ds : List DTok) : List DTok := (canon (parseHeader (stmts (normD ds)))).render.flatten
 
 /-! ## (iv) The checker -/
 
-/-- normalised significant tokens with comment flags (the flag of a rewritten token stays on its
-    first output token) -/
-def normA (ts : List STok) : List STok :=
-  let roles := annotate (ts.map (·.tok))
-  (ts.zip roles).flatMap fun (s, (_, r)) =>
-    match normTok (s.tok, r) with
-    | [] => []
-    | t :: more => { s with tok := t } :: more.map (fun u => { tok := u })
+def stmtComments (s : Stmt) : List CKey := commentsOf s
 
-def headerOf (src : Str) : Header := parseHeader (splitStmts (normA (attributeComments (lex src))) 0 [])
-
-def sameToks (a b : List Stmt) : Bool := a.map stmtText == b.map stmtText
-
-/-- remove the first statement satisfying `p` -/
-def eraseStmt (p : Stmt → Bool) : List Stmt → Option (List Stmt)
-  | [] => none
-  | y :: ys => if p y then some ys else (eraseStmt p ys).map (y :: ·)
-
-/-- match every output import against a distinct input import with the same tokens; the
-    unmatched input imports are returned -/
-def matchImports : List Stmt → List Stmt → Option (List Stmt)
+/-- `subtract ins outs`: remove every statement of `outs` once from `ins`; what is left over -/
+def subtract : List Stmt → List Stmt → Option (List Stmt)
   | ins, [] => some ins
-  | ins, o :: os =>
-    -- prefer a commented input statement: the ones left over must be comment-free
-    match eraseStmt (fun y => stmtText y = stmtText o && importHasComment y) ins with
-    | some ins' => matchImports ins' os
-    | none => match eraseStmt (fun y => stmtText y = stmtText o) ins with
-      | some ins' => matchImports ins' os
-      | none => none
+  | ins, o :: os => if o ∈ ins then subtract (ins.erase o) os else none
 
+/-- the output imports are the input imports (tokens AND comments) in any order, minus elided
+    ones; an elided import carries no comment at all and imports a file that a kept statement
+    imports -/
 def importsOK (ins outs : List Stmt) : Bool :=
-  match matchImports ins outs with
-  | some elided => elided.all fun e => !importHasComment e && outs.any (fun k => importName k = importName e)
+  match subtract ins outs with
+  | some elided => elided.all fun e => (stmtComments e).isEmpty && outs.any (fun k => importName k = importName e)
   | none => false
-
-def optionsOKT (ins outs : List (List Token)) : Bool :=
-  outs.isPerm ins &&
-    (ins.map optionKeyT).all fun k => outs.filter (optionKeyT · = k) == ins.filter (optionKeyT · = k)
 
 /-- the output options are a STABLE reordering of the input options: a permutation that keeps
     the relative order of the statements of every option name -/
-def optionsOK (ins outs : List Stmt) : Bool := optionsOKT (ins.map stmtText) (outs.map stmtText)
+def optionsOK (ins outs : List Stmt) : Bool :=
+  outs.isPerm ins &&
+    (ins.map optionKey).all fun k => outs.filter (optionKey · = k) == ins.filter (optionKey · = k)
 
-/-- comment content up to the layout changes the formatter documents: the words between the
-    comment markers -/
-def splitWords : Str → Str → List Str
-  | [], cur => if cur.isEmpty then [] else [cur.reverse]
-  | c :: cs, cur => if isWs c then (if cur.isEmpty then splitWords cs [] else cur.reverse :: splitWords cs []) else splitWords cs (c :: cur)
+/-- tokens after which the leading/trailing distinction of a comment is kept: the end of a
+    declaration or of a body line — `;`, `{`, and a `}` that is not directly followed by `;` `,`
+    `]` (such a `}` closes a message-literal VALUE in the middle of a declaration) -/
+def isBoundary (t : Token) (next : List DTok) : Bool :=
+  t.is ";" || t.is "{" ||
+    (t.is "}" && !(match next with | n :: _ => n.tok.is ";" || n.tok.is "," || n.tok.is "]" | [] => false))
 
-def commentKey (t : Token) : List Str :=
-  let body := if t.kind = .lineComment then t.text.drop 2 else ((t.text.drop 2).reverse.drop 2).reverse
-  splitWords body []
+/-- Inside a declaration a comment between two tokens is the same comment whether protocompile
+    calls it "trailing" for the left or "leading" for the right token (the formatter prints
+    `x // c⏎ y` as `x /* c */ y`): it is moved to the leading comments of the right token —
+    except after a boundary token and at the end of the statement. `carry` = comments handed on. -/
+def gapNormAux : List CKey → List DTok → List DTok
+  | _, [] => []
+  | carry, d :: rest =>
+    if isBoundary d.tok rest || rest.isEmpty then { d with lead := carry ++ d.lead } :: gapNormAux [] rest
+    else { d with lead := carry ++ d.lead, trail := [] } :: gapNormAux d.trail rest
 
-def commentsOK (inp out : List Token) : Bool :=
-  ((comments out).map commentKey).isPerm ((comments inp).map commentKey)
+def gapNorm (s : Stmt) : Stmt := gapNormAux [] s
 
-/-- nearest significant neighbours of every comment: (text of the previous significant token,
-    text of the next one), `<`/`>` read as `{`/`}` -/
-def braceText (t : Token) : Str := if t.is "<" then "{".toList else if t.is ">" then "}".toList else t.text
+/-- the header relation the checker decides, on the statement lists of input and output -/
+def headerOK (si so : List Stmt) : Bool :=
+  ofCls .syn so == ofCls .syn si && ofCls .pkg so == ofCls .pkg si && ofCls .rest so == ofCls .rest si &&
+    importsOK (ofCls .imp si) (ofCls .imp so) && optionsOK (ofCls .opt si) (ofCls .opt so)
 
-def neighbours : List Token → Str → List (List Str × Str × Str)
-  | [], _ => []
-  | t :: ts, prev =>
-    if t.isComment then
-      let next := match ts.find? Token.isSig with | some n => braceText n | none => []
-      (commentKey t, prev, next) :: neighbours ts prev
-    else if t.isSig then neighbours ts (braceText t) else neighbours ts prev
+/-- the checker on decorated streams -/
+def validD (di dout : List DTok) : Bool :=
+  dropsClean (annotateD di) && headerOK ((stmts (normD di)).map gapNorm) ((stmts dout).map gapNorm)
 
-/-- every comment of the input (with a unique text) keeps its preceding or its following
-    significant token -/
-def neighboursOK (inp out : List Token) : Bool :=
-  let ni := neighbours inp []
-  let no := neighbours out []
-  ni.all fun (k, p, n) =>
-    match no.filter (·.1 = k) with
-    | [(_, p', n')] => (ni.filter (·.1 = k)).length != 1 || p' = p || n' = n
-    | _ => true
+/-- the translation validator for one formatter run: the decorated significant-token stream of
+    `out` (tokens with the comments attributed to them) is the one of `inp` after the body-level
+    rewrites, with the file-level statements rearranged as `headerOK` allows. -/
+def validFormat (inp out : Str) : Bool := validD (decorate (lex inp)) (decorate (lex out))
 
-/-- the translation validator for one formatter run -/
-def validFormat (inp out : Str) : Bool :=
-  let ti := lex inp
-  let to := lex out
-  let hi := headerOf inp
-  let ho := headerOf out
-  sameToks hi.syn ho.syn && sameToks hi.pkg.toList ho.pkg.toList && sameToks hi.rest ho.rest &&
-    importsOK hi.imports ho.imports && optionsOK hi.options ho.options &&
-    commentsOK ti to
+/-! ## (v) The normal form `isFormatted` -/
 
-/-! ## (iii) The pending-space automaton of formatter.WriteString -/
+/-- layout: the text does not start with white space, ends with exactly one newline, and every
+    white-space token is either one space or newlines (at most one blank line) followed by an
+    indentation of spaces -/
+def wsTokOK (s : Str) : Bool :=
+  s = [' '] ||
+    (let nl := s.takeWhile (· = '\n')
+     let ind := s.dropWhile (· = '\n')
+     (nl.length = 1 || nl.length = 2) && ind.all (· = ' ') && ind.length % 2 = 0)
 
-structure WState where
-  pendingSpace : Bool := false
-  inline : Bool := false
-  last : Char := '\x00'        -- lastWritten (0 = nothing written yet)
-  out : List Char := []         -- reversed output
+def layoutOK : List Token → Bool
+  | [] => true
+  | [t] => t.kind = .ws && t.text = ['\n']
+  | t :: u :: ts => (t.kind != .ws || wsTokOK t.text) && layoutOK (u :: ts)
 
-/-- does WriteString(elem) first emit the pending space? (as coded: block lists) -/
-def emitsSpace (st : WState) (elem : Str) : Bool :=
-  let first := elem.headD '\x00'    -- utf8.DecodeRuneInString of "" is RuneError; never in a block list either way
-  let prevBlock : List Char := if st.inline then ['\x00', ' ', '\t', '\n', '<', '[', '{', '('] else ['\x00', ' ', '\t', '\n']
-  let nextBlock : List Char := if st.inline then ['\n', ';', ',', ')', ']', '}', '>'] else ['\n', ';', ',']
-  st.pendingSpace && !prevBlock.contains st.last && !(elem ≠ [] && nextBlock.contains first)
+def startsOK (ts : List Token) : Bool :=
+  match ts with
+  | t :: _ => t.kind != .ws
+  | [] => true
 
-def writeString (st : WState) (elem : Str) : WState :=
-  let out1 := if emitsSpace st elem then ' ' :: st.out else st.out
-  match elem.getLast? with
-  | none => { st with pendingSpace := false, out := out1 }
-  | some l => { st with pendingSpace := false, last := l, out := elem.reverse ++ out1 }
+/-- normal form on token level: no token the formatter would rewrite, header hoisted and sorted -/
+def formattedD (ds : List DTok) : Bool :=
+  (roles (toks ds)).all (· = .keep) &&
+    (let ss := stmts ds; (canon (parseHeader ss)).render == ss)
 
-def space (st : WState) : WState := { st with pendingSpace := true }
+def isFormatted (x : Str) : Bool :=
+  let ts := lex x
+  formattedD (decorate ts) && startsOK ts && layoutOK ts
 
 end BufModel.Format
